@@ -1509,20 +1509,26 @@ class SqlRegistry:
             records = {}
         else:
             records = dict(records)
-        if (
-            isinstance(dataId, DataCoordinate)
-            and dataId.hasRecords()
-            # The records attached to the given data ID describe its own
-            # values; if a keyword argument overrode one of them they do not
-            # describe the data ID being expanded and must be fetched again.
-            and all(standardized.mapping.get(k, v) == v for k, v in dataId.mapping.items())
-        ):
+        carried: set[str] = set()
+        if isinstance(dataId, DataCoordinate) and dataId.hasRecords():
             for element_name in dataId.dimensions.elements:
                 records[element_name] = dataId.records[element_name]
+                carried.add(element_name)
         keys: dict[str, str | int] = dict(standardized.mapping)
         for element_name in standardized.dimensions.lookup_order:
             element = self.dimensions[element_name]
             record = records.get(element_name, ...)  # Use ... to mean not found; None might mean NULL
+            if (
+                element_name in carried
+                and record is not None
+                and any(keys.get(k) != v for k, v in record.dataId.required.items())
+            ):
+                # The records attached to the given data ID describe its own
+                # values; one whose key values differ from those of the data
+                # ID being expanded (a keyword argument overrode them, or
+                # another record implies different ones) must be fetched
+                # again.
+                record = ...
             if record is ...:
                 if element_name in self.dimensions.dimensions.names and keys.get(element_name) is None:
                     raise DimensionNameError(f"No value or null value for dimension {element_name}.")
